@@ -1,14 +1,14 @@
 SPECIFICATION Spec
 CONSTANTS
-  MaxH = 9
-  Page = 3
+  MaxH = 4
+  Page = 8
   Ahead = 2
   MaxCrash = 2
   MaxReset = 0
-  GCOn = TRUE
-  MTB = 2
-  GCP = 2
-  JumpOn = FALSE
-  Dev = {}
+  GCOn = FALSE
+  MTB = 1
+  GCP = 1
+  JumpOn = TRUE
+  Dev = {"JumpDropsGenesis"}
 INVARIANTS NoDead HeightBound RecoverOK DiskCoherent ResetConfluence ResumeOK MarkersFollowData
 CHECK_DEADLOCK FALSE
